@@ -11,12 +11,13 @@ from .terms import T, Unsupported, ONE, same_ext, ext_of, rv
 
 class Atom:
     __slots__ = ("kind", "base", "h", "c", "i", "rows", "cols", "diag", "real", "herm", "pos",
-                 "invt", "unit", "exp", "inner", "key", "perm")
+                 "invt", "unit", "exp", "inner", "key", "perm", "nn")
 
     def __init__(self, kind, base, rows, cols, h=False, c=False, i=False, diag=False, real=False,
                  herm=False, pos=False, invt=False, unit=False, exp=None, inner=None):
         self.kind, self.base, self.rows, self.cols = kind, base, rows, cols
         self.perm = kind == "sym" and isinstance(base, str) and base.startswith("Perm[")
+        self.nn = False
         self.diag, self.real, self.herm, self.pos, self.invt, self.unit = diag, real, herm, pos, invt, unit
         if real:
             c = False
@@ -35,8 +36,11 @@ class Atom:
         d = dict(kind=self.kind, base=self.base, rows=self.rows, cols=self.cols, h=self.h, c=self.c,
                  i=self.i, diag=self.diag, real=self.real, herm=self.herm, pos=self.pos,
                  invt=self.invt, unit=self.unit, exp=self.exp, inner=self.inner)
+        nn = kw.pop("nn", self.nn)
         d.update(kw)
-        return Atom(**d)
+        a = Atom(**d)
+        a.nn = nn or a.pos
+        return a
 
     def adj(self, h, c):
         """image under (optional) adjoint and (optional) conjugation; T = adjoint+conj"""
@@ -47,9 +51,11 @@ class Atom:
         r, cc = (self.cols, self.rows) if h else (self.rows, self.cols)
         if self.diag:
             # Atom.__init__ turns h into conj for diagonals; pass flags relative to base
-            return Atom(self.kind, self.base, self.rows, self.cols, h=False, c=(self.c ^ h ^ c),
-                        i=self.i, diag=True, real=self.real, herm=self.herm, pos=self.pos,
-                        invt=self.invt, unit=self.unit, exp=self.exp, inner=self.inner)
+            a = Atom(self.kind, self.base, self.rows, self.cols, h=False, c=(self.c ^ h ^ c),
+                     i=self.i, diag=True, real=self.real, herm=self.herm, pos=self.pos,
+                     invt=self.invt, unit=self.unit, exp=self.exp, inner=self.inner)
+            a.nn = self.nn
+            return a
         return Atom(self.kind, self.base, r, cc, h=nh, c=nc, i=self.i, diag=False, real=self.real,
                     herm=self.herm, pos=self.pos, invt=self.invt, unit=self.unit, exp=None,
                     inner=self.inner)
@@ -126,9 +132,11 @@ class Normalizer:
     # ---------- flatten terms to polynomials
     def atom_of_sym(self, t, h, c):
         p = t.props
-        return Atom("sym", t.args[0], t.rows, t.cols, diag="diag" in p, real="real" in p,
-                    herm="herm" in p, pos="pos" in p, invt=("inv" in p or "pos" in p or "unit" in p),
-                    unit="unit" in p).adj(h, c)
+        a = Atom("sym", t.args[0], t.rows, t.cols, diag="diag" in p, real="real" in p,
+                 herm="herm" in p, pos="pos" in p, invt=("inv" in p or "pos" in p or "unit" in p),
+                 unit="unit" in p)
+        a.nn = "nonneg" in p or "pos" in p
+        return a.adj(h, c)
 
     def reg(self, *exts):
         for e in exts:
@@ -198,8 +206,8 @@ class Normalizer:
                 raise Unsupported("power of non-diagonal product")
             atoms = []
             for a in m.atoms:
-                if not (a.pos or _is_num(e) and z3.simplify(e).as_fraction() >= 0
-                        and z3.simplify(e).as_fraction().denominator == 1):
+                enum = z3.simplify(e).as_fraction() if _is_num(e) else None
+                if not (a.pos or (enum is not None and enum >= 0 and (enum.denominator == 1 or a.nn))):
                     raise Unsupported(f"non-integer/negative power of a diagonal not known positive: {a!r}")
                 atoms.append(a.with_(exp=z3.simplify(a.exp * e)))
             scal = tuple((k, z3.simplify(x * e)) for k, x in m.scal)
@@ -251,6 +259,7 @@ class Normalizer:
                 herm = self.pkey(inner) == self.pkey(self.nf_poly(self.adj_poly(inner, True, False)))
                 a = Atom("dg", self.pkey(inner), t.rows, t.cols, diag=True,
                          real=herm or all(x.real for x in m.atoms), herm=herm, inner=inner)
+                a.nn = self._is_gram(m.atoms)
                 out.append(Mono(m.coef, m.scal, [a], m.rows, m.cols))
             return out
         if t.op == "tr":
@@ -314,6 +323,18 @@ class Normalizer:
         raise Unsupported(f"normaliser: term op {t.op}")
 
     scalars = {}
+
+    @staticmethod
+    def _is_gram(atoms):
+        """A^H A (optionally A^H D A with D a positive diagonal): positive semi-definite"""
+        k = len(atoms)
+        mid = []
+        if k % 2 == 1:
+            mid = [atoms[k // 2]]
+            if not (mid[0].diag and (mid[0].pos or mid[0].nn)):
+                return False
+        first, second = atoms[:k // 2], atoms[k // 2 + len(mid):]
+        return [x.key for x in first] == [x.adj(True, False).key for x in reversed(second)]
 
     def scalar_pos(self, k):
         kind, v = self.scalars[k]
@@ -425,7 +446,8 @@ class Normalizer:
             if a.diag and b.diag:
                 ka, kb = (a.kind, str(a.base), a.c), (b.kind, str(b.base), b.c)
                 if ka == kb:
-                    if a.pos or a.invt or (self._nonneg_int(a.exp) and self._nonneg_int(b.exp)):
+                    if a.pos or a.invt or (self._nonneg_int(a.exp) and self._nonneg_int(b.exp)) or (
+                            a.nn and self._nonneg(a.exp) and self._nonneg(b.exp)):
                         return [self._with(m, l[:i] + [a.with_(exp=z3.simplify(a.exp + b.exp))] + l[i + 2:])], "diag-merge"
                 elif str(ka) > str(kb):
                     return [self._with(m, l[:i] + [b, a] + l[i + 2:])], "diag-comm"
@@ -456,6 +478,11 @@ class Normalizer:
                                         l[:i] + list(r.atoms) + l[i + k:], m.rows, m.cols))
                     return out, f"{name}"
         return None
+
+    @staticmethod
+    def _nonneg(e):
+        e = z3.simplify(e)
+        return (z3.is_rational_value(e) or z3.is_int_value(e)) and e.as_fraction() >= 0
 
     @staticmethod
     def _nonneg_int(e):
